@@ -39,6 +39,7 @@ import (
 	"sync"
 	"sync/atomic"
 	"testing"
+	"testing/synctest"
 	"unsafe"
 
 	"github.com/zitadel/oidc/v3/pkg/client"
@@ -485,6 +486,7 @@ func (s *server) runInBubble(req request) reply {
 		return reply{Err: "base world cannot be built: " + p}
 	}
 	ck.w = w
+	w.Quiesce = synctest.Wait
 	known := map[string]bool{}
 	for _, k := range req.Known {
 		known[k] = true
@@ -543,6 +545,7 @@ func (s *server) runInBubble(req request) reply {
 		if p := engine.Safe(func() { last = o.Run(w) }); p != "" {
 			last = "panic:" + p
 		}
+		synctest.Wait() // goroutines the operation left behind (key download) have finished before anything is judged
 		if step < req.CheckFrom {
 			continue
 		}
@@ -592,6 +595,7 @@ func (s *server) references() error {
 		}
 		pn := engine.Bubble(s.t, 0, func() {
 			w := world.Build(nil)
+			w.Quiesce = synctest.Wait
 			if ctor == nil {
 				for _, i := range w.Insts {
 					s.refs[i.Ref] = w.Behaviour(i)
@@ -600,6 +604,7 @@ func (s *server) references() error {
 			}
 			n0 := len(w.Insts)
 			ctor.Run(w)
+			synctest.Wait()
 			for _, i := range w.Insts[n0:] { // a constructor operation may create several instances (provider + LegacyServer over it)
 				s.refs[i.Ref] = w.Behaviour(i)
 			}
@@ -876,12 +881,19 @@ func TestCheck(t *testing.T) {
 		"reduction for 'any number of goroutines': a data race on library-owned state needs a write; if no operation of the alphabet writes package-level state, caller-supplied objects or instance fields outside a struct that holds its own mutex, no interleaving of these operations can race on such state (the mutex-guarded remoteKeySet is explored by C13)",
 		"fields of a struct that itself holds a sync.Mutex/RWMutex are assumed to be guarded by it and are not compared (listed under c20_info.mutex_guarded_struct_types_not_compared)",
 		"below a struct that itself holds a sync.Once, the first initialisation of a leaf (zero value or absent -> value) is taken to be that Once's lazy initialisation and accepted; every later change of such a leaf is judged like any other write (whether the lazily cached value is RIGHT for every later request is the business of the behavioural checks, e.g. C08/C19 with request-derived issuers)",
-		"channels, sync.*/atomic.* values and structs of third-party packages (otel tracer, chi router, gorilla/schema coders, html/template, slog, go-jose signer, x/oauth2 internals) are not walked: by pointer they are compared by identity, by value they are skipped (c20_info.not_walked_types)",
+		"channels, sync.Mutex/RWMutex/Once/WaitGroup, atomic integers/flags and structs of third-party packages (otel tracer, chi router, gorilla/schema coders, html/template, slog, go-jose signer, x/oauth2 internals) are not walked: by pointer they are compared by identity, by value they are skipped (c20_info.not_walked_types)",
+		"sync.Map, atomic.Value and atomic.Pointer[T] ARE walked (entries by Range, ordered by the rendering of the key; values like any other value, third-party values by pointer identity): below a package-level variable or a caller-supplied object a changed entry is a hidden write (a memo shared by every instance of the process); below an instance they are synchronised state of that instance and are not compared (what a memo does to behaviour is judged by the differential oracle)",
+		"sync.Pool is neither walked nor compared (counted in c20_info.not_walked_types): its contents are transient by contract (dropped at any GC, Get returns any element or none); a pooled object that comes back dirty is caught where it is used, by the differential oracle and the race pass",
+		"http.DefaultClient of the standard library is tracked like a package-level variable of the repository (profile.NewJWTProfileTokenSource* hand it to the HTTP helpers by default)",
+		"differential probe of a provider / LegacyServer: one code flow of the JWT-access-token client against the instance's OWN storage through the paths the application configured; the ID token and the access token must verify against the key the instance's own key endpoint publishes under the token's kid and carry the instance's issuer - compared with the same instance in a fresh history. The constructor alphabet holds providers whose storages use the SAME key id as every other storage (sig-1) with other key material (ES256) and with another algorithm (RS256)",
+		"redirect probes: the first request of the probed call is answered 302, the redirected request with a canned 400 (the probe counts requests; none of the probed calls retries); before and after each probe the checker waits (synctest.Wait) until the goroutines the library started (key download) are finished - a remote key set clears its in-flight marker only after it has woken the caller",
+		"for sequences of length >= 2 (only the last step judged) ONE execution serves both oracles: the frame digests are taken first, the behaviour probes run afterwards; a replay runs each oracle on its own and judges every step",
+		"the engine's four re-executions of a violation candidate are answered from the first verdict when the candidate's signature is listed as known (it cannot raise an alarm); every other candidate is re-executed for real",
 		"funcs are digested by code pointer (two closures of the same literal are equal)",
 		"storage-owned device states are under the frame condition from the first storage action of the harness that touches them (approval / hand-out of the pointer), at the latest from the end of the operation that created them; writes the harness makes in the role of the storage owner are accepted leaf by leaf",
 		"refstore (with ShareDevState: the storage hands out its own *DeviceAuthorizationState, as the repository's example storage does) and the in-process transport installed as http.DefaultTransport are trusted",
 		"caller-supplied *oauth2.Config is handed over with AuthStyle 0 (the constructor's unconditional store of its own AuthStyle into that object is not judged: ownership of the config passes to the relying party)",
-		"race supplement: free-running under the Go race detector; a report is a violation, silence is NOT a proof of race freedom",
+		"race supplement: free-running under the Go race detector; a report is a violation, silence is NOT a proof of race freedom. Every unordered pair of call operations on the shared base instances; an operation paired with itself runs as FOUR callers, first on fresh worlds (first concurrent use of fresh instances: lazy initialisation, first fill of a memo), then repeatedly on one world. In every other round the inputs (codes, tokens) are fetched before the start barrier so that the library calls themselves start together and their first accesses are not ordered by lock hand-overs inside the provider",
 	)
 
 	// the signatures listed as known (read-only; the engine matches them again by exact signature)
@@ -925,6 +937,11 @@ func TestCheck(t *testing.T) {
 	violated := map[string]bool{}
 	key := func(oracle string, seq []string) string { return oracle + "|" + strings.Join(seq, "\x00") }
 	var pruned, executions int64
+	var knownVerdict sync.Map
+	isKnown := map[string]bool{}
+	for _, k := range knownSigs {
+		isKnown[k] = true
+	}
 	// verdicts of the other oracle of a shared execution, consumed once
 	var smu sync.Mutex
 	shared := map[string]reply{}
@@ -981,6 +998,13 @@ func TestCheck(t *testing.T) {
 						from = L
 					}
 					var r reply
+					// The engine re-executes every violation candidate four more times before it believes it. For a
+					// candidate whose signature is LISTED AS KNOWN (it cannot raise an alarm, and its site has been
+					// reproduced many times over) the first verdict is returned again instead: these candidates
+					// (every sequence ending in a WithCustom*Endpoint constructor) were more than half of all executions.
+					if kr, ok := knownVerdict.Load(key(oracle, seq)); ok {
+						return kr.(engine.Result)
+					}
 					if from == L && L >= 2 {
 						// one execution serves both oracles (frame first, then the behaviour probes): the verdict
 						// of the other oracle is kept for that oracle's vector of the same sequence
@@ -1006,12 +1030,16 @@ func TestCheck(t *testing.T) {
 						r = ev(request{Oracle: oracle, Seq: seq, Known: knownSigs, CheckFrom: from})
 						atomic.AddInt64(&executions, 1)
 					}
+					res := engine.Result{Rule: r.Rule, Outcome: r.Outcome, Sig: r.Sig, Detail: r.Detail}
 					if r.Sig != "" {
 						vmu.Lock()
 						violated[key(oracle, seq)] = true
 						vmu.Unlock()
+						if isKnown[r.Sig] && c.ReplayFile == "" {
+							knownVerdict.Store(key(oracle, seq), res)
+						}
 					}
-					return engine.Result{Rule: r.Rule, Outcome: r.Outcome, Sig: r.Sig, Detail: r.Detail}
+					return res
 				}
 			}})
 		harvest()
